@@ -44,6 +44,8 @@ def parseHandler (s : String) : Option Handler :=
   | ["apanic"] => some (.scripted .authPanic)
   | ["npanic"] => some (.scripted .namePanicAfterReject)
   | ["gpanic"] => some (.scripted .genPanic)
+  -- a key whose CSRs() panics: the same observable run as a panic in Generate
+  | ["gcpanic"] => some (.scripted .genPanic)
   | ["gempty"] => some (.scripted .genEmpty)
   | ["gerr", k] =>
     let kind : Option ErrKind := match k with
